@@ -35,6 +35,18 @@ CHECKS = {
  "C11": ("exploration", "runtime monitor: executable order/validity model compared with Apath on exhaustive small alphabets + emitters observed on generated trees",
          "All pairs/triples of valid paths over two alphabets up to depth 4/3 and every string over a 13-component alphabet (exhaustive within the bound) are compared against an independent statement of the documented order and validity rule; the source walk, listings and independently decoded hunks of generated trees must be strictly increasing under it.",
          "Trusted: oracle::apath_key as restatement of doc/format.md; snap + serde_json to decode hunks.", "3 C11"),
+ "C12": ("exploration", "runtime monitor: subtree listings for every entry and non-existent paths vs component-wise filter of the full listing; subtree restores vs full restore",
+         "Generated trees with multi-byte names and siblings that extend one another; the real subtree listing is compared for every possible S with the component-wise filter of the full listing, and restore(only_subtree=S) for every directory with the same subtree of a full restore (bytes and metadata), nothing else created.",
+         "Trusted: harness walker; the full listing/restore as reference.", "3 C12"),
+ "C15": ("exploration", "runtime monitor: stored / listed / restored path sets under exclusions vs an independent glob oracle",
+         "Generated trees x pattern sets (anchored, unanchored, wildcards, classes, '**', directories with children, non-ASCII): the three code paths (walk pruning at backup, per-entry filter at list and at restore) are observed and each compared with the rule 'omitted iff it or an ancestor matches' evaluated by globs built from the raw patterns.",
+         "Trusted: globset for what one glob matches; E2 reader for the stored entries.", "3 C15"),
+ "C16": ("exploration", "runtime monitor: lstat+content+ctime snapshots of the area around the destination before/after every restore, incl. stitched versions with entries below a symlink",
+         "Source trees full of symlinks aimed at sentinel files and directories beside the destination (relative, absolute, '..', '/') are backed up and restored under several selections and destination states while a recursive snapshot including ctime watches everything outside the destination; non-empty destinations must be refused untouched; versions stitched from backups killed after a directory became a symlink are restored too.",
+         "Trusted: ctime as witness of metadata writes through links; hostile pre-existing destination content is out of scope.", "3 C16"),
+ "C18": ("exploration", "runtime monitor: diff stream and backup change callback vs classification computed from two lstat snapshots",
+         "Generated trees and mutation sets; diff(version, tree) with and without include_unchanged must equal, entry for entry and in order, the classification computed independently from the harness's snapshots, and the next backup's change callback must name the same added/changed/deleted files.",
+         "Trusted: harness walker; named uid/gid mapping is one-to-one.", "3 C18"),
 }
 
 NOT_YET = "check not built yet (planned, see DESIGN.md section 3)"
